@@ -344,9 +344,15 @@ func (x *Exec) atReturn(st *State, res []Value) {
 		if !ok1 || !ok2 {
 			x.unsupportedf("binds %s: not a pointer", bd.Name)
 		}
-		g := ptrEq(rv, ev)
+		var g Term
 		if bd.Cond != nil {
-			g = Implies(env.evalBool(bd.Cond), g)
+			ct := env.evalBool(bd.Cond)
+			if ct.IsFalse() || impliedByPath(st, Not(ct)) || x.solverImplies(st, Not(ct)) {
+				continue // the binding does not apply on this path
+			}
+			g = Implies(ct, ptrEq(rv, ev))
+		} else {
+			g = ptrEq(rv, ev)
 		}
 		x.addObl(st, "ensures", "binds_"+bd.Name, g, "", "result "+bd.Name+" is the location "+bd.E.String())
 	}
@@ -367,7 +373,7 @@ func (x *Exec) atReturn(st *State, res []Value) {
 			if len(st.path) > 0 && strings.HasPrefix(st.path[0], "case:") {
 				pk += "|" + st.path[0]
 			}
-			if isImpl && (x.c.Schema == "" || x.probeCount[pk] < 8) && x.probeCount[pk] < 4000 {
+			if isImpl && (x.c.Schema == "" || x.probeCount[pk] < 400) && x.probeCount[pk] < 4000 {
 				ante := env.evalBool(cl.E.Args[0])
 				if ante.IsFalse() {
 					continue
